@@ -37,7 +37,7 @@ theorem marshal_eq_spec (f : Frame) (h : WF f) : f.marshal Gen.bufferSize = .ok 
       rcases h with ⟨⟨⟨hic, hs⟩, hl⟩, hts⟩ | ⟨⟨hic, hts⟩, hs⟩
       · subst hic hs hl hts
         simp [Frame.marshal, putInto, copyInto, Gen.bufferSize, le16, specBytes, v2Bytes, Gen.v2MagicByte, lenByte, h1, h2,
-          V2Frame.isSigned, Gen.v2FlagSigned, uint24Encode, le24]
+          V2Frame.isSigned, Gen.v2FlagSigned, uint24Encode, Gen.uint24Encode, le24]
       · subst hic
         cases sig with
         | none => simp at hs
@@ -46,7 +46,7 @@ theorem marshal_eq_spec (f : Frame) (h : WF f) : f.marshal Gen.bufferSize = .ok 
           have h3 : p.length ≤ 493 := by omega
           have h4 : List.take (512 - (p.length + 19)) s = s := List.take_of_length_le (by omega)
           simp [Frame.marshal, putInto, copyInto, Gen.bufferSize, le16, specBytes, v2Bytes, Gen.v2MagicByte, lenByte, h1, h2,
-            V2Frame.isSigned, Gen.v2FlagSigned, uint24Encode, le24, uint48Encode, le48, h3]
+            V2Frame.isSigned, Gen.v2FlagSigned, uint24Encode, Gen.uint24Encode, le24, uint48Encode, Gen.uint48Encode, le48, h3]
           exact List.take_of_length_le (by omega)
 
 /-- a reader without key and dialect -/
